@@ -44,6 +44,8 @@ Section C04.
                  (forall v, In v nc -> exists e, In e tr /\ ev_val e = v);
     cr_warm_never_called : c_memory c = true -> forall e k, In e tr -> value2position sp (ev_val e) = Ok k ->
                  dict_mem pos_eqb k M0 = true -> ~ In (ev_val e) nc;
+    cr_warm_used : c_memory c = true -> forall e k r0, In e tr -> value2position sp (ev_val e) = Ok k ->
+                 dict_get pos_eqb k M0 = Some r0 -> ev_res e = r0;
     cr_revisit : c_memory c = true -> forall e1 e2, In e1 tr -> In e2 tr -> ev_val e1 = ev_val e2 -> ev_res e1 = ev_res e2;
     cr_dict  : d_memory_dict s' = (if c_memory c then M0 ++ zip ks (map f0 nc) else []);
     cr_cover : c_memory c = true -> forall e, In e tr -> exists k, value2position sp (ev_val e) = Ok k /\
@@ -105,6 +107,9 @@ Section C04.
       destruct Hnc as [->|Hnc].
       + assert (k' = k) by congruence. subst. rewrite (Fr k (or_introl eq_refl)) in G. discriminate.
       + apply IH; try assumption. intros k0 Hk0. apply Fr. right. assumption.
+    - intros Hon e k r0 Hin Hk Hg0.
+      destruct (Mhit Hon e Hin) as (k' & Hk' & Hg). assert (k' = k) by congruence. subst k'.
+      rewrite (Mmem Hon), dget_app, Hg0 in Hg. congruence.
     - intros Hon e1 e2 H1 H2 Hv.
       destruct (Mhit Hon e1 H1) as (k1 & K1 & G1). destruct (Mhit Hon e2 H2) as (k2 & K2 & G2).
       rewrite Hv in K1. assert (k1 = k2) by congruence. subst. congruence.
